@@ -13,18 +13,20 @@ def build(repo):
     gp, gs, gr = [], [], []
     P = 'property::verif_zone_prune::'
     R = 'store::verif_range_prune::'
-    for a in (0, 1, 2):
-        for b in (0, 1, 2):
+    # (min, max) kind pairs: only those the insert path can produce.  min and max always belong to the same comparability class
+    # (numeric = Int64/Float64, or Bool): both start as the first non-null value and are only ever replaced by a value that COMPARES
+    # less / greater.  The step_* / base_* harnesses prove that invariant (`same_class`) inductive; pairs such as (int, bool) are
+    # unreachable states, and obligations over them would demand more than the property states (DESIGN.md section 9).
+    for a, b in ((0, 0), (0, 1), (1, 0), (1, 1), (2, 2)):
             for c in (0, 1, 2):
                 for d in (0, 1, 2, 3):
                     for g, gname in ((0, 'eq'), (1, 'ord')):
                         for ex in (False, True):
                             n = 'prune_%s%s_%s_%s_%s_%s' % (gname, '_exact' if ex else '', K[a], K[b], K[c], K[d])
-                            gp.append('prune!(%s, %d, %s, %d, %d, %d, %d);' % (n, g, 'true' if ex else 'false', a, b, c, d))
                             numeric = all(x in (0, 1) for x in (a, b, c)) and d in (0, 1)
                             if ex and not numeric:
-                                gp.pop()
                                 continue
+                            gp.append('prune!(%s, %d, %s, %d, %d, %d, %d);' % (n, g, 'true' if ex else 'false', a, b, c, d))
                             u.harness(P + n, 'property::PropertyColumn::might_match::conservative::%s%s[min=%s,max=%s,stored=%s,probe=%s]' % (
                                 'Eq/Ne' if g == 0 else 'Lt/Le/Gt/Ge', '::exact_domain' if ex else '', K[a], K[b], K[c], K[d]),
                                 tier='quick' if (ex and numeric) or (a == b == c and d in (a, 3)) else 'thorough', timeout=600)
@@ -42,11 +44,14 @@ def build(repo):
             for c in (0, 1):
                 for lo in (0, 1, 9):
                     for hi in (0, 1, 9):
-                        n = 'range_%s_%s_%s_%s_%s' % (KR[a], KR[b], KR[c], KR[lo], KR[hi])
-                        gr.append('range!(%s, %d, %d, %d, %d, %d);' % (n, a, b, c, lo, hi))
                         same = (a == b == c) and (lo in (a, 9)) and (hi in (a, 9)) and not (lo == 9 and hi == 9)
-                        u.harness(R + n, 'zone_map::ZoneMapEntry::might_contain_range::conservative_vs_value_in_range[min=%s,max=%s,stored=%s,lo=%s,hi=%s]' % (KR[a], KR[b], KR[c], KR[lo], KR[hi]),
-                                  tier='quick' if same else 'thorough', timeout=600)
+                        for ex in (False, True):
+                            if ex and (a == b == c) and lo in (a, 9) and hi in (a, 9):
+                                continue        # one numeric type throughout: no conversion, the full-domain obligation is the exact one
+                            n = 'range%s_%s_%s_%s_%s_%s' % ('_exact' if ex else '', KR[a], KR[b], KR[c], KR[lo], KR[hi])
+                            gr.append('range!(%s, %s, %d, %d, %d, %d, %d);' % (n, 'true' if ex else 'false', a, b, c, lo, hi))
+                            u.harness(R + n, 'zone_map::ZoneMapEntry::might_contain_range::conservative_vs_value_in_range%s[min=%s,max=%s,stored=%s,lo=%s,hi=%s]' % (
+                                '::exact_domain' if ex else '', KR[a], KR[b], KR[c], KR[lo], KR[hi]), tier='quick' if same else 'thorough', timeout=600)
     ga = []
     for c in (0, 1):
         for lo in (0, 1, 9):
